@@ -6,7 +6,7 @@ RULES = {
            "non-trivial = at least one run reached the handlers; distinct = distinct tuples (handler list, agent behaviour, key-directory state, namespace policy, hard-key flag, result kind, faults fired with phase, CA script) over the run history",
     "C02": "as C01, generator biased towards odd strings (JSON metacharacters, non-ASCII, spaces, IPv6) and key-identifier spellings; every signing request seen by the scripted CA is checked",
     "C03": "as C01 with more faults and longer histories; distinct = distinct run-history signatures",
-    "C04": "one evaluation = one execution of gensign.Run with exactly one injected fault (or the fault-free reference); per seeded scenario ALL placements are enumerated: every agent request index x 9 reply/connection faults, every signer call x {error, panic}, every stub-handler method x panic; "
+    "C04": "one evaluation = one execution of gensign.Run with exactly one injected fault (or the fault-free reference); per seeded scenario ALL placements are enumerated: every agent request index x 10 reply/connection faults (one of them a refusal that is repeated whenever the same request comes again), every signer call x {error, panic}, every stub-handler method x panic; "
            "distinct = distinct (handler list, request kind, phase, fault, result kind) tuples plus scenario signatures",
     "C12": "one evaluation = one simulated connection served by yubiagent.ServeAgent (stream of 1..9 frames from the frame grammar, chunking, EOF / read error / write error positions); "
            "non-trivial = every run (at least one frame is sent); distinct = distinct (stack, per-frame kind/class/reply count, error, panic) signatures",
